@@ -312,6 +312,8 @@ class Fn:
             if da is not None or db is not None:
                 d = '(if %s then %s else %s)' % (c, da or 'true', db or 'true')
             return ('(if %s then %s else %s)' % (c, a, b), conj(dc, d))
+        if k in ('CXXTemporaryObjectExpr', 'CXXConstructExpr', 'CXXFunctionalCastExpr') and len(ks) == 1:
+            return self.E(ks[0])
         if k in ('CallExpr', 'CXXMemberCallExpr', 'CXXOperatorCallExpr'):
             return self.call(n, t, ks)
         raise Unsupported('expression kind %s' % k)
@@ -371,6 +373,12 @@ class Fn:
     def call(self, n, t, ks):
         name, cal = self.callee_name(n, ks)
         args = ks[1:]
+        if name in getattr(self, 'identity_methods', ('get',)) and not args and cal['kind'] == 'MemberExpr':
+            base = kids(cal)[0]
+            while base['kind'] in ('ImplicitCastExpr', 'ParenExpr'):
+                base = kids(base)[0]
+            if base['kind'] == 'DeclRefExpr':
+                return self.E(base)
         if name == 'max' and not args and t[0] == 'i':
             return (str(rng(t)[1]), None)
         if name == 'min' and not args and t[0] == 'i':
@@ -455,6 +463,13 @@ class Fn:
             raise Unsupported('control reaches end of function %s' % self.name)
         s, rest = stmts[0], stmts[1:]
         k = s['kind']
+        if k == 'ParenExpr' or (k in ('CXXStaticCastExpr', 'CStyleCastExpr') and s.get('castKind') == 'ToVoid'):
+            inner = s
+            while inner['kind'] == 'ParenExpr':
+                inner = kids(inner)[0]
+            if inner.get('castKind') == 'ToVoid':
+                return self.block(rest, tail)  # compiled-out assertion
+            raise Unsupported('expression statement')
         if k == 'DeclStmt':
             term = None
             decls = [c for c in kids(s) if c['kind'] == 'VarDecl']
@@ -463,6 +478,14 @@ class Fn:
             v = decls[0]
             nm = self.fresh(v['name'])
             init = kids(v)
+            if init:
+                c0 = init[-1]
+                while c0['kind'] in ('ImplicitCastExpr', 'ParenExpr', 'ExprWithCleanups', 'MaterializeTemporaryExpr'):
+                    c0 = kids(c0)[0]
+                if c0['kind'] == 'CXXMemberCallExpr' and self.callee_name(c0, kids(c0))[0] in getattr(self, 'input_calls', ()):
+                    self.env[v['id']] = nm
+                    self.params.append((nm, ctype(v)))
+                    return self.block(rest, tail)
             if not init:
                 if v['name'] in self.extra_inputs:
                     self.env[v['id']] = nm
@@ -562,6 +585,9 @@ class Fn:
             return ('(let %s := %s in\n  %s)' % (pat, bind, r), dd)
         if k in ('CXXMemberCallExpr', 'CallExpr'):
             name, _ = self.callee_name(s, kids(s))
+            if self.mode == 'callarg:' + str(name):
+                self.result_type = ctype(kids(s)[1])
+                return self.E(kids(s)[1])
             if name in getattr(self, 'skip_calls', ()):
                 return self.block(rest, tail)
             if name in getattr(self, 'input_calls', ()):
